@@ -36,6 +36,9 @@ structure FCok (c : FC) (F : Fmt) : Prop where
   maxd : c.maxDigits ≥ 22
   /-- a midpoint between adjacent floats has at most `MAX_DIGITS - 1` significant decimal digits -/
   digits_ok : 2 ^ (F.mbits + 2) * 5 ^ (F.qexp + 1) < 10 ^ (c.maxDigits - 1)
+  /-- `10^400` is beyond the finite range, `10^-401` below half the least subnormal -/
+  huge400 : 2 ^ (F.mbits + 1) * 2 ^ (2 ^ F.ebits - 3) ≤ 10 ^ 400 * 2 ^ F.qexp
+  tiny400 : 2 * 2 ^ F.qexp ≤ 10 ^ 401
   /-- integers below `2^80` are far inside the finite range -/
   finbig : 2 ^ 80 * 2 ^ F.qexp * 2 < (4 * 2 ^ F.mbits - 1) * 2 ^ (2 ^ F.ebits - 3)
   /-- a decimal with `MAX_DIGITS - 1` integer digits is beyond the finite range -/
